@@ -50,7 +50,7 @@ RULE_H = ("explicit-state search over abstract registry states (sequence of live
           "built by its canonical history in a child forked from a pristine process and every operation of the alphabet (create x6, failed create x5, destroy slot, use slot, "
           "14 error exits per slot, counter preset) is applied to it as real API calls; invariants of the set model are checked after each call, self-loops must leave the "
           "concrete observation (registry walk, ledger, table pointer) identical, and a state reached by an operation must look exactly like the same state built canonically; "
-          "plus an unmerged enumeration of all operation sequences over a 10-letter alphabet up to the stated depth; states = transitions explored (one per case), "
+          "plus an unmerged enumeration of all operation sequences over a 10-letter alphabet up to the stated depth (thorough: two further depths over the six registry-changing letters); states = transitions explored (one per case), "
           "non-trivial = state-changing transition or an operation on a non-empty registry")
 ASSUME_H = ["<= 4 live instances; configurations rs_vand (2,1) (3,2), flat_xor_hd (3,3,3) (5,5,3), isa_l_rs_vand (2,1) via the reference plug-in, null (2,1); failing creates: unsupported flat-XOR shape, missing Jerasure library, k+m > 32, and init failures inside the null and isa-l back ends (w = 4)",
             "descriptors are opaque tokens: states are merged up to descriptor renaming (the counter preset is part of the state); the unmerged sequence enumeration cross-checks this",
@@ -81,13 +81,15 @@ CHECKS = {
                             "a fragment_len >= 80 that is smaller than the real fragments is not in the alphabet (recorded as an out-of-scope observation in DESIGN.md 9)",
                             "allocation failure is not injected", "Jerasure, SHSS and libphazr are not installed: their ids are exercised only up to the 'backend not available' refusal"]},
     "C14": {"runs": [{"name": "states", "plan": "states", "srcs": H, "san": "asan", "link": LIFE_LINK, "weight": 3, "opts": {"quick": {"slots": 3, "pin_plugins": 0}, "thorough": {"slots": 4, "pin_plugins": 0}}, "only_sites": C14_SITES},
-                     {"name": "seq", "plan": "seq", "srcs": H, "san": "asan", "link": LIFE_LINK, "opts": {"quick": {"depth": 5, "pin_plugins": 0}, "thorough": {"depth": 7, "pin_plugins": 0}}, "only_sites": C14_SITES},
+                     {"name": "seq", "plan": "seq", "srcs": H, "san": "asan", "link": LIFE_LINK, "weight": 2, "opts": {"quick": {"depth": 5, "pin_plugins": 0}, "thorough": {"depth": 6, "pin_plugins": 0}}, "only_sites": C14_SITES},
+                     {"name": "seqR", "plan": "seq", "srcs": H, "san": "asan", "link": LIFE_LINK, "weight": 3, "tiers": ("thorough",), "opts": {"thorough": {"depth": 8, "from_depth": 7, "reduced": 1, "pin_plugins": 0}}, "only_sites": C14_SITES},
                      {"name": "wrap", "plan": "wrap", "srcs": H, "san": "asan", "link": LIFE_LINK, "opts": {"quick": {"depth": 9, "pin_plugins": 0}, "thorough": {"depth": 11, "pin_plugins": 0}}, "only_sites": C14_SITES}],
             "level": "model_checking", "deadline": {"quick": 150, "thorough": 1500},
             "rule": RULE_H + "; plus (wrap) every sequence over {create flat_xor_hd, create null, destroy slot 0..3, counter := INT_MAX-1, counter := INT_MAX} up to the stated depth, unmerged, "
                     "so that the wrapped descriptor counter meets every arrangement of <= 4 live descriptors", "assumptions": ASSUME_H},
     "C16": {"runs": [{"name": "states", "plan": "states", "srcs": H, "san": "asan", "link": LIFE_LINK, "opts": {"quick": {"slots": 3, "pin_plugins": 0}, "thorough": {"slots": 4, "pin_plugins": 0}}, "only_sites": C16_SITES},
-                     {"name": "seq", "plan": "seq", "srcs": H, "san": "asan", "link": LIFE_LINK, "opts": {"quick": {"depth": 4, "pin_plugins": 0}, "thorough": {"depth": 6, "pin_plugins": 0}}, "only_sites": C16_SITES},
+                     {"name": "seq", "plan": "seq", "srcs": H, "san": "asan", "link": LIFE_LINK, "opts": {"quick": {"depth": 4, "pin_plugins": 0}, "thorough": {"depth": 5, "pin_plugins": 0}}, "only_sites": C16_SITES},
+                     {"name": "seqR", "plan": "seq", "srcs": H, "san": "asan", "link": LIFE_LINK, "tiers": ("thorough",), "opts": {"thorough": {"depth": 7, "from_depth": 6, "reduced": 1, "pin_plugins": 0}}, "only_sites": C16_SITES},
                      {"name": "c16s", "plan": "c16s", "srcs": S, "san": "asan"}],
             "level": "model_checking", "deadline": {"quick": 150, "thorough": 1500},
             "rule": RULE_H + "; plus a sweep over all 496 RS + 38 XOR + 2x496 ISA-L shapes: encode, decode (4 erasure sets, unaligned inputs), reconstruct every index, the cleanup calls, destroy - the ledger of library allocations must be back at its baseline",
